@@ -185,6 +185,21 @@ theorem generated_always_returns (empty : Bool) (x0 : X) :
   · exact ⟨.converged, m, k, by rw [h], fun e => by cases e⟩
   · exact ⟨.error, m, k, by rw [h], fun _ => hm⟩
 
+/-- `NewtonSolver.__init__` reads every option by "present key wins": the reads extracted from the source are the reference ones -/
+theorem generated_option_reads_is_ref : Gen.optionReads = refOptionReads := by decide
+
+/-- so a limit of 0 given by the caller IS the limit the solver runs with (and by `newton_zero_limits_reported` /
+`newton_failure_is_reported` the first solve then fails and is reported), whereas the `get(key) or default` reading would
+silently run with the default -/
+theorem generated_falsy_options_are_honoured (default : Nat) :
+    (∀ r ∈ Gen.optionReads, readOpt r (some 0) default = 0) ∧
+    readOpt ⟨"MAXITER", "maxiter", false⟩ (some 0) 3000 = 3000 := by
+  rw [generated_option_reads_is_ref]
+  refine ⟨?_, by decide⟩
+  intro r hr
+  simp only [refOptionReads, List.mem_cons, List.mem_nil_iff, or_false] at hr
+  rcases hr with rfl | rfl | rfl | rfl | rfl | rfl | rfl | rfl | rfl <;> simp [readOpt]
+
 /-- the branches of `_solver_helper`, in particular WHICH exceptions of the scipy solvers are caught, are the reference ones -/
 theorem generated_helper_shape_is_ref : Gen.helperShape = refHelperShape Gen.helperShape.fsolveCatch := by decide
 
